@@ -161,109 +161,11 @@ Lemma erase_fold_send : forall x (f : nid -> msg) l s,
   ~ In x l ->
   erase_S x (fold_left (fun s y => send y (f y) s) l s) = fold_left (fun s y => send y (f y) s) l (erase_S x s).
 Proof.
-  intros x f l; induction l as [|a l IH]; intros s Hx; [reflexivity|].
-  assert (a <> x) as Ha by (intros ->; apply Hx; left; reflexivity).
-  cbn [fold_left]. rewrite IH by (intros H; apply Hx; right; exact H).
-  apply f_equal. apply erase_send; exact Ha.
+  Timeout 20 Time intros x f l; induction l as [|a l IH]; intros s Hx; [reflexivity|].
+  Timeout 20 Time assert (a <> x) as Ha by (intros ->; apply Hx; left; reflexivity).
+  Timeout 20 Time cbn [fold_left].
+  Timeout 20 Time rewrite IH by (intros H; apply Hx; right; exact H).
+  Timeout 20 Time apply f_equal.
+  Timeout 20 Time apply erase_send; exact Ha.
 Qed.
 
-Lemma erase_fire : forall x c r e s, erase_S x (fire c r e s) = fire c r e (erase_S x s).
-Proof. intros; unfold fire; destruct c; try reflexivity. apply erase_emit; reflexivity. Qed.
-
-Lemma erase_fold_fire : forall x l s,
-  erase_S x (fold_left (fun s kv => fire (snd kv) 0 LEADER_CHANGED s) l s) =
-  fold_left (fun (s : S) (kv : N * cbref) => fire (snd kv) 0 LEADER_CHANGED s) l (erase_S x s).
-Proof.
-  intros x l; induction l as [|a l IH]; intros s; cbn [fold_left]; [reflexivity|].
-  rewrite IH, erase_fire. reflexivity.
-Qed.
-
-Lemma erase_on_leader_changed : forall x s, erase_S x (on_leader_changed s) = on_leader_changed (erase_S x s).
-Proof.
-  intros; unfold on_leader_changed. rewrite erase_upd by reflexivity. rewrite erase_fold_fire. reflexivity.
-Qed.
-
-Lemma erase_set_role : forall x r s, erase_S x (set_role r s) = set_role r (erase_S x s).
-Proof.
-  intros; unfold set_role; cbv zeta. change (role (nd (erase_S x s))) with (role (nd s)).
-  destruct (role (nd s) =? r).
-  - apply erase_upd; reflexivity.
-  - rewrite erase_emit by reflexivity. rewrite erase_upd by reflexivity. reflexivity.
-Qed.
-
-(* the part of tick_election before the majority test *)
-Definition election_start (e : env) (me : nid) (s : S) : S :=
-  let s := upd (fun n => n <| deadline := (tnow s + gen_timeout e)%Z |> <| leader := None |>) s in
-  let s := set_role CANDIDATE s in
-  let s := upd (fun n => n <| term := term n + 1 |> <| voted := Some me |> <| votes := 1 |>) s in
-  let n := nd s in
-  let s := fold_left (fun s x => send x (RequestVote (term n) (last_idx (log n)) (last_term (log n))) s) (others n) s in
-  on_leader_changed s.
-
-Lemma tick_election_eq : forall e s,
-  tick_election e s =
-  match self (nd s) with
-  | None => s
-  | Some me =>
-    if ((role (nd s) =? FOLLOWER) || (role (nd s) =? CANDIDATE)) && (deadline (nd s) <? tnow s)%Z && connected_to_anyone (nd s)
-    then let s1 := election_start e me s in if majority (votes (nd s1)) (nd s1) then become_leader e s1 else s1
-    else s
-  end.
-Proof. reflexivity. Qed.
-
-Lemma election_start_facts : forall e me s,
-  votes (nd (election_start e me s)) = 1 /\ others (nd (election_start e me s)) = others (nd s).
-Proof.
-  intros e me s. unfold election_start; cbv zeta.
-  match goal with |- context [on_leader_changed ?Y] =>
-    destruct (fr_on_leader_changed true Y) as (ex & _ & _ & C & _); destruct (core_fields _ _ C) as (_ & _ & _ & _ & -> & _);
-    assert (others (nd (on_leader_changed Y)) = others (nd Y)) as -> end.
-  { unfold on_leader_changed. cbn [nd upd set].
-    match goal with |- others (nd (fold_left ?g ?l ?Y)) = _ => generalize l; generalize Y end.
-    intros Y l; revert Y; induction l as [|a l IH]; intros Y; cbn [fold_left]; [reflexivity|].
-    rewrite IH. unfold fire; destruct (snd a); reflexivity. }
-  match goal with |- context [fold_left (fun s y => send y (@?f y) s) ?l ?Y] => rewrite !(nd_fold_send f l Y) end.
-  unfold set_role; cbv zeta. destruct (_ =? CANDIDATE); split; reflexivity.
-Qed.
-
-Lemma erase_election_start : forall e me s x,
-  ~ In x (others (nd s)) -> erase_S x (election_start e me s) = election_start e me (erase_S x s).
-Proof.
-  intros e me s x Hx. unfold election_start; cbv zeta.
-  rewrite erase_on_leader_changed. f_equal.
-  match goal with |- erase_S x (fold_left (fun s y => send y (@?f y) s) ?l ?Y) = _ => rewrite (erase_fold_send x f l Y) end.
-  2:{ unfold set_role; cbv zeta. destruct (_ =? CANDIDATE); exact Hx. }
-  rewrite erase_upd by reflexivity. rewrite erase_set_role. rewrite erase_upd by reflexivity.
-  reflexivity.
-Qed.
-
-Lemma erase_tick_election : forall e s x,
-  ~ In x (others (nd s)) -> majority 1 (nd s) = false ->
-  connected_to_anyone (erase_ro x (nd s)) = connected_to_anyone (nd s) ->
-  erase_S x (tick_election e s) = tick_election e (erase_S x s).
-Proof.
-  intros e s x Hx Hm Hc. rewrite !tick_election_eq.
-  change (self (nd (erase_S x s))) with (self (nd s)).
-  destruct (self (nd s)) as [me|]; [|reflexivity].
-  change (role (nd (erase_S x s))) with (role (nd s)). change (deadline (nd (erase_S x s))) with (deadline (nd s)).
-  change (tnow (erase_S x s)) with (tnow s). change (nd (erase_S x s)) with (erase_ro x (nd s)) at 1. rewrite Hc.
-  destruct (_ && _); [|reflexivity]. cbv zeta.
-  rewrite <- (erase_election_start e me s x Hx).
-  destruct (election_start_facts e me s) as (V & O).
-  assert (majority (votes (nd (election_start e me s))) (nd (election_start e me s)) = false) as M1.
-  { rewrite V. unfold majority in *. rewrite O. exact Hm. }
-  change (votes (nd (erase_S x (election_start e me s)))) with (votes (nd (election_start e me s))).
-  assert (majority (votes (nd (election_start e me s))) (nd (erase_S x (election_start e me s))) = false) as M2.
-  { rewrite V. unfold majority in *. change (others (nd (erase_S x (election_start e me s)))) with (others (nd (election_start e me s))).
-    rewrite O. exact Hm. }
-  rewrite M1, M2. reflexivity.
-Qed.
-
-Theorem C18_noninterference_partial : forall e s x,
-  ~ In x (others (nd s)) ->
-  erase_S x (tick_leader e s) = tick_leader e (erase_S x s) /\
-  (majority 1 (nd s) = false -> connected_to_anyone (erase_ro x (nd s)) = connected_to_anyone (nd s) ->
-   erase_S x (tick_election e s) = tick_election e (erase_S x s)).
-Proof.
-  intros e s x Hx. split; [apply erase_tick_leader; exact Hx | intros; apply erase_tick_election; assumption].
-Qed.
